@@ -331,6 +331,15 @@ Definition msg_reserve (used present : list bool) : list bool :=
 (* default_instance->New(arena) / allocator.construct(ptr) : nothing present; then reserve *)
 Definition msg_recreate (used : list bool) : list bool := msg_reserve used (map (fun _ => false) used).
 
+(* ---- reusable string: assignment from a string with a foreign allocator (std::string) --------------------------- *)
+(* MonotonicBasicString::operator=(const std::basic_string<C, traits, A>&) = assign(other.c_str(), other.size());
+   whether the length is passed is regenerated (foreign_assign_len = 1 when the second argument is other.size()).
+   Without it the one-argument assign stops at the first NUL byte. *)
+Fixpoint until_nul (bs : list Z) : list Z :=
+  match bs with [] => [] | b :: t => if Z.eqb b 0%Z then [] else b :: until_nul t end.
+Definition str_assign_foreign (bs : list Z) : list Z :=
+  if Z.eqb foreign_assign_len 1%Z then bs else until_nul bs.
+
 (* ---- the specification: std::vector as a list ---------------------------------------------------------- *)
 Definition spec_step (l : list Z) (o : op) : list Z :=
   match o with
